@@ -703,8 +703,9 @@ def domain(fx: Fixture, ent, attr, cur):  # pylint: disable=too-many-return-stat
         b[:, 2] += 1.5
         return [a, b], base
     if attr == "end_of_hole":
+        # None is an accepted value (drillhole.py:148-155 "float | int | None")
         c = 8.0 if cur is None else float(cur)
-        return [c + 0.5, c * 2 + 1.25], (c if cur is None else base)
+        return [c + 0.5, None], (c if cur is None else base)
     if attr in ("u_cell_delimiters", "v_cell_delimiters", "z_cell_delimiters"):
         arr = np.asarray(cur, dtype=float)
         return [arr * 2.0, arr * 0.5 + np.arange(len(arr)) * 0.25], base
@@ -725,10 +726,14 @@ def domain(fx: Fixture, ent, attr, cur):  # pylint: disable=too-many-return-stat
     if attr == "primitive_type":
         raise Skip("changing the primitive type of a stored type would invalidate the data using it: no valid new value")
     if attr == "number_of_bins":
+        # "It can be None if no histogram is used" (data_type.py:230-247)
         c = 50 if cur is None else int(cur)
-        return [c + 1, c + 5], (c if cur is None else base)
+        return [c + 1, None], (c if cur is None else base)
     if attr in ("units", "description") and cur is None:
         return STRINGS[:2], "zero"
+    if attr == "description" and fx.kind in ("otype", "gtype", "dtype"):
+        # "str | None" (entity_type.py:134-150)
+        return [_others(STRINGS, cur)[0], None], base
     if attr == "association" and fx.kind == "data":
         from geoh5py.data import DataAssociationEnum as E
         if cur is E.OBJECT:
